@@ -89,6 +89,11 @@ func (m *Method) BoundCall(s *Scope, depth int) Object {
 }
 
 func (m *Method) BoundInnerCall(s *Scope, depth int) (result Object) {
+	// As for InnerCall, the daemons must not see a wrapper location.
+	if loc, _ := s.localGet("~whopper-location~"); loc != nil {
+		s = s.NewScope()
+		s.Let("~whopper-location~", nil)
+	}
 	for _, c := range m.Combinations {
 		if bc, _ := c.Before.(BoundCaller); bc != nil {
 			bc.BoundCall(s, depth)
